@@ -541,8 +541,34 @@ def execute_t(scn, known, stop):
         else:
           run_fit_real(ctx, model, cb, cbspec, oracle, op, state)
       elif k == "PREDICT":
-        model(state["probe"], training=False)
+        y_eager = np.asarray(model(state["probe"], training=False).numpy())
         state["called"] = True
+        # Behavioural meaning of "variable-backed mode used during training":
+        # a function traced AFTER the scheduler switched the knobs to
+        # variables must follow later updates.  The trace is only taken once
+        # a scheduler has begun (before that, constant capture is TensorFlow's
+        # doing) and is then reused for the rest of the run.
+        if cb is not None and oracle.begun:
+          if "traced" not in state:
+            state["traced"] = tf.function(
+                lambda t: model(t, training=False))
+            ctx.fault("traced_after_scheduler_began")
+          y_tr = np.asarray(state["traced"](tf.constant(
+              state["probe"])).numpy())
+          ctx.checked()
+          ctx.probe("traced_predict_compared")
+          tolp = 1e-4 * max(1e-6, float(np.abs(y_eager).max())) + 1e-6
+          auto = any(isinstance(getattr(q, "alpha", None), str)
+                     for l in model.layers
+                     for q in (getattr(l, "quantizers", None) or [])
+                     if q is not None)
+          if not auto and np.isfinite(y_eager).all() and \
+              np.abs(y_tr - y_eager).max() > tolp:
+            ctx.violation("scheduler|traced-function-does-not-follow-updates",
+                          "a tf.function traced after the scheduler began "
+                          "returns %r, eager evaluation with the current "
+                          "factors %r" % (float(y_tr.reshape(-1)[0]),
+                                          float(y_eager.reshape(-1)[0])))
       else:
         raise HarnessError("op " + k)
       for _, _, q in knob_quantizers(model):
@@ -697,7 +723,7 @@ def gen_t(rng, real=False):
     if op["k"] == "FIT" and rng.chance(0.15):
       op["dup_train_begin"] = True
     ops.append(op)
-    if rng.chance(0.2):
+    if rng.chance(0.5):
       ops.append({"k": "PREDICT"})
   return {"engine": "T", "seed": rng.subseed(), "world": world, "ops": ops}
 
@@ -735,8 +761,12 @@ def directed_t():
     for ci, cb in enumerate(cbs):
       for prebuilt in (False, True):
         ops = ([{"k": "PREDICT"}] if prebuilt else []) + [
+            {"k": "FIT", "epochs": 1, "steps": 2, "cb": cb},
+            {"k": "PREDICT"},
             {"k": "FIT", "epochs": 3, "steps": 4, "cb": cb},
+            {"k": "PREDICT"},
             {"k": "FIT", "epochs": 2, "steps": 3, "cb": cb},
+            {"k": "PREDICT"},
             {"k": "FIT", "epochs": 2, "steps": 3, "cb": cb, "new_cb": True,
              "resume": True},
         ]
